@@ -2,7 +2,7 @@
 import os
 from lib import fw
 
-MODULES = ["SunriseVerif.Props.C12", "SunriseVerif.Props.C12Full"]
+MODULES = ["SunriseVerif.Props.C12", "SunriseVerif.Props.C12Full", "SunriseVerif.Props.C12MV", "SunriseVerif.Props.C12MVRefine"]
 CORPUS = os.path.join(fw.VERIF, "corpus", "C12")
 
 
@@ -35,11 +35,23 @@ def run(ctx):
             ctx.fail("infra", "generator coverage", "never exercised: %s" % missing)
         if st.get("unauthorized.ok", 0) or st.get("unauthorized.panic", 0):
             pass  # reported by the owner_only oracle
-    # directed two-validator histories (walk order of the per-validator unbonding records), oracle only
-    res2 = fw.corr(ctx, "lockup2", 60 if ctx.thorough() else 6, driver_suite=False)
+    # directed two-validator histories (walk order of the per-validator unbonding records): compared line by line with the
+    # multi-validator model (Model/LockupMV.lean, driver suite `lockupmv`) and judged by the oracles
+    res2 = fw.corr(ctx, "lockup2", 60 if ctx.thorough() else 6, driver_suite="lockupmv")
     fw.report_corr(ctx, "lockup2", res2, feats)
     if res2 and res2["stats"].get("lockup2.paid_back_before_second_matures", 0) == 0:
         ctx.fail("infra", "generator coverage", "lockup2 never reached the state 'first unbonding paid back, second pending'")
+    # generated multi-validator histories (2-3 validators, delegate / undelegate / send across them, block times around the
+    # unbonding completion instants incl. the same-second window), same model, same oracles
+    res3 = fw.corr(ctx, "lockupmv", 400 if ctx.thorough() else 24, driver_suite="lockupmv")
+    fw.report_corr(ctx, "lockupmv", res3, feats)
+    if res3:
+        st3 = res3["stats"]
+        need3 = ["lockupmv.vals_used_2plus", "lockupmv.undelegated_2plus", "lockupmv.block_in_second_window",
+                 "lockupmv.blocked_after_maturity", "nvDelegate.ok", "nvUndelegate.ok", "send.ok"]
+        missing3 = [k for k in need3 if st3.get(k, 0) == 0]
+        if missing3:
+            ctx.fail("infra", "generator coverage", "lockupmv never exercised: %s" % missing3)
     # kernel statements on concrete operands (cheap when the proofs hold; the failing-input search when they do not)
     bad = fw.pred_search(ctx, "C12", (4000 if ctx.thorough() else 600) if ok else 20000)
     if bad:
